@@ -128,7 +128,7 @@ impl Prop for PXLoop {
         let mut script = vec![];
         if rng.chance(1, 2) {
             for _ in 0..rng.below(10) {
-                script.push(*rng.pick(&[0i64, 0, 0, 0, 1, 2, 125, 126, 255, 1009]));
+                script.push(*rng.pick(&[0i64, 0, 0, 0, 1, 2, 125, 126, 255, 1009, 1013]));
             }
         }
         v["script"] = json!(script);
